@@ -69,7 +69,7 @@ theorem loser_never_returned {s : State α} (r : Reachable cfg s) {m : Nat} (hl 
   have inv := inv_reachable (code_shape present buf entries decodeK) r
   have hc : s.cell ≠ some m := by
     intro h
-    have := (inv.cell_ok m h).2
+    have := (inv.cell_ok m h).2.1
     rw [hl] at this; cases this
   exact ⟨fun i hi => hc (inv.done_cell i m hi), hc⟩
 
@@ -125,9 +125,28 @@ theorem merge_all {cfg : Cfg β α} (safe : cfg.Safe) (i m : Nat) :
     · simp [hh, hke, Cfg.full]
   | succ n ih =>
     intro k s hk hpc hh
-    have st := Step.merge s i m k hpc (by omega)
-    obtain ⟨t, h1, h2, h3, h4⟩ := ih (k + 1) _ (by omega) (by simp [upd, hm]) (by simp [upd])
+    have st := Step.merge (cfg := cfg) s i m k hpc (by omega)
+    obtain ⟨t, h1, h2, h3, h4⟩ := ih (k + 1)
+      { s with heap := upd s.heap m (some (cfg.decodeK cfg.buf (k + 1))), pc := upd s.pc i (afterMerge cfg m (k + 1)) }
+      (by omega) (by simp [upd, hm]) (by simp [upd])
     exact ⟨t, Steps.head st h1, h2, h3, by simpa using h4⟩
+
+/-- a thread that finds the cell nil and is not disturbed decodes, publishes and returns its own,
+complete object -/
+theorem lone_decoder_finishes {cfg : Cfg β α} (safe : cfg.Safe) (i : Nat) (s : State α)
+    (hpc : s.pc i = .decode) (hc : s.cell = none) :
+    ∃ t, Steps cfg s t ∧ t.pc i = .done (some s.next) ∧ t.heap s.next = some cfg.full := by
+  have ha : ∀ m k, afterCas cfg m k = .load := by
+    intro m k; simp [afterCas, afterPublish, safe.afterAll, safe.reload]
+  have st1 := Step.alloc (cfg := cfg) s i hpc
+  obtain ⟨t, h1, h2, h3, h4⟩ := merge_all safe i s.next cfg.entries 0
+    { s with next := s.next + 1, heap := upd s.heap s.next (some (cfg.decodeK cfg.buf 0)), pc := upd s.pc i (.own s.next 0 false) }
+    (by omega) (by simp [upd]) (by simp [upd])
+  have hcell : t.cell = none := by rw [h4]; exact hc
+  have st2 := Step.cas_win (cfg := cfg) t i s.next _ h2 safe.cas hcell
+  have st3 := Step.load (cfg := cfg)
+    { t with cell := some s.next, pc := upd t.pc i (afterCas cfg s.next cfg.entries) } i s.next (by simp [upd, ha]) rfl
+  exact ⟨_, Steps.tail (Steps.tail (Steps.head st1 h1) st2) st3, by simp [upd], by simpa using h3⟩
 
 /-- The sequential run itself (one thread, alone) ends in `done` with the sequential result,
 whatever the number of index entries. -/
@@ -141,20 +160,12 @@ theorem sequential_run (present : Bool) (buf : β) (entries : Nat) (decodeK : β
     · simp [upd]
     · simp [seqResult, lazyCfg]
   | true =>
-    let cfg := lazyCfg true buf entries decodeK
-    have ha : ∀ m k, afterCas cfg m k = .load := by
-      intro m k; simp [afterCas, afterPublish, safe.afterAll, safe.reload]
-    have r1 := Reachable.step (cfg := cfg) Reachable.init (Step.present_yes init 0 rfl rfl)
-    have r2 := Reachable.step r1 (Step.checkNil_nil _ 0 (by simp [upd]) rfl)
-    have r3 := Reachable.step r2 (Step.alloc _ 0 (by simp [upd]))
-    obtain ⟨t, h1, h2, h3, h4⟩ := merge_all safe 0 0 entries 0 _ (by simp [cfg, lazyCfg]) (by simp [upd, init]) (by simp [upd, init, cfg, lazyCfg])
-    have r4 := steps_reachable r3 h1
-    have hcell : t.cell = none := by rw [h4]; rfl
-    have r5 := Reachable.step r4 (Step.cas_win t 0 0 _ h2 safe.cas hcell)
-    have r6 := Reachable.step r5 (Step.load _ 0 0 (by simp [upd, ha]) rfl)
-    refine ⟨_, some 0, r6, by simp [upd], ?_⟩
-    simp only [Option.bind_some]
-    rw [h3]; simp [seqResult, cfg, lazyCfg]
+    let s1 : State α := { (init : State α) with pc := upd (init : State α).pc 0 .checkNil }
+    let s2 : State α := { s1 with pc := upd s1.pc 0 .decode }
+    have r1 : Reachable (lazyCfg true buf entries decodeK) s1 := Reachable.step Reachable.init (Step.present_yes init 0 rfl rfl)
+    have r2 : Reachable (lazyCfg true buf entries decodeK) s2 := Reachable.step r1 (Step.checkNil_nil s1 0 (by simp [s1, upd]) rfl)
+    obtain ⟨t, h1, h2, h3⟩ := lone_decoder_finishes safe 0 s2 (by simp [s2, upd]) rfl
+    exact ⟨t, _, steps_reachable r2 h1, h2, by simp [h3, seqResult, lazyCfg]⟩
 
 /-- The sync.Map caches of internal/impl/legacy_*.go (Load; compute; LoadOrStore; return the stored
 value) are the same publish-once protocol: all callers obtain the same cached object. -/
